@@ -31,10 +31,10 @@ ObsSt(o) == [fs  |-> [dirs |-> SeqToSet(o.dirs), files |-> SeqToSet(o.files)],
              cwd |-> LET C == SeqToSet(o.cwd) IN [d \in DOMAIN Roots |-> (CHOOSE c \in C : c[1] = d)[2]]]
 
 \* the fragment of path strings for which Apply() is an exact model: the small alphabet, no doubled leading
-\* backslash (UNC prefix), at most one colon, and then only as a one-letter drive prefix
-FragChars == {65, 66, 70, 78, 97, DOT, SP, BSL}
+\* separator (UNC prefix), at most one colon, and then only as a one-letter drive prefix
+FragChars == {65, 66, 70, 78, 97, DOT, SP, BSL, SL}
 FragRest(p) == /\ Range(p) \subseteq FragChars
-               /\ ~(Len(p) >= 2 /\ p[1] = BSL /\ p[2] = BSL)
+               /\ ~(Len(p) >= 2 /\ p[1] \in {BSL, SL} /\ p[2] \in {BSL, SL})
 InFragStr(p) == LET c == FirstIdx(p, COLON)
                 IN IF c = 0 THEN FragRest(p)
                    ELSE c = 2 /\ Up(p[1]) \in 65..90 /\ FragRest(SubSeq(p, 3, Len(p)))
